@@ -483,7 +483,7 @@ pub fn run(tier: Tier, seed: u64) -> i32 {
         run.random("library", tier.pick(30_000, 1_500_000), 700, case_lib);
     }
     if tier == Tier::Thorough && !run.failed() {
-        run.fuzz("libfuzzer", 1_500_000, 8, 600, fuzz_case);
+        run.fuzz("libfuzzer", 60_000, 8, 600, fuzz_case);
     }
     let code = run.finish();
     cleanup_scratch();
